@@ -34,7 +34,7 @@ func vrS1_union(dom string) {
 }
 
 func Harness_C19_s1_intersection()             { vrS1_intersection("RUF") }
-func Harness_C19_s1_intersection_fpx_thorough() { vrS1_intersection("FPX") }
+func vrTODO_C19_s1_intersection_fpx_thorough() { vrS1_intersection("FPX") }
 
 func vrS1_intersection(dom string) {
 	vr.Domain(dom)
